@@ -95,7 +95,7 @@ func init() {
 				})
 			}
 			obs := func(t int) map[string]interface{} {
-				fl, nbuf, wr, rd := gate.VerifPeek()
+				fl, nbuf, lk := gate.VerifPeek()
 				logs, idx, nh, rl := ring.VerifPeek()
 				li := make([]int, len(logs))
 				for i, s := range logs {
@@ -103,7 +103,7 @@ func init() {
 						li[i] = lineOf([]byte(s))
 					}
 				}
-				x := map[string]interface{}{"fl": fl, "nbuf": nbuf, "wr": wr, "rd": rd, "logs": li, "idx": idx, "reg": nh > 0, "rl": rl}
+				x := map[string]interface{}{"fl": fl, "nbuf": nbuf, "lk": lk, "logs": li, "idx": idx, "reg": nh > 0, "rl": rl}
 				o := map[string]interface{}{"out": copyInts(rec.out), "mon": copyInts(mon.got), "inv": false, "fin": false, "panic": "", "x": x}
 				if t > 0 {
 					o["inv"], o["fin"] = inv[t], fin[t]
